@@ -16,6 +16,9 @@ def pick_ids(rng, n, style):
         nums = list(range(1, n + 1))
     elif style == 'dense0':
         nums = list(range(0, n))
+    elif style == 'denseb':      # b..b+n-1: with start = b the dense pass has nothing to move
+        b = rng.choice([1, 1, 1, 0, 2, 5, rng.randint(1, 40), 1000, 2 ** 31, U32 - n])
+        nums = list(range(b, b + n))
     elif style == 'sparse':
         nums = rng.sample(range(1, 4 * n + 10), n)
     elif style == 'high':
@@ -35,15 +38,36 @@ def pick_ids(rng, n, style):
     return ids
 
 
-def gen_doc(rng, size):
+def numarr(rng, items, depth=0):
+    """a mixed array whose FIRST element is a number (integer or real) and that holds the given values further on:
+    bare, in a nested number-first array, in a dictionary inside the array, in an ordinary array inside it.
+    This is the shape of a number tree (/Nums [0 r 1 r] of PageLabels, ParentTree)."""
+    out = [rng.choice([I(0), I(0), I(rng.randint(-3, 99)), R('0.5'), R('2.5')])]
+    for k, it in enumerate(items):
+        form = rng.random()
+        if form < 0.4:
+            out.append(it)
+        elif form < 0.6 and depth < 2:
+            out.append(numarr(rng, [it], depth + 1))
+        elif form < 0.8:
+            out.append(D([('K', it)]) if rng.random() < 0.6 else D([('Obj', numarr(rng, [it], 2))]))
+        else:
+            out.append(A([it]))
+        if rng.random() < 0.6:
+            out.append(I(k + 1))
+    return A(out)
+
+
+def gen_doc(rng, size, style=None):
     """returns (objects list [((n,g), sx)], trailer entries, page ids in page order, all ids, dangling ids used)"""
     n_pages = rng.choice([0, 1, 2, 3, 3, 4, 5, 6, 8]) if size != 'tiny' else rng.choice([0, 1, 2])
     n_mid = rng.randint(0, 2) if n_pages >= 2 else 0
     n_res = rng.randint(0, 4)            # shared resources / content streams
     n_unreach = rng.randint(0, 3)
     n_ind = rng.randint(0, 2)            # objects that are just a reference to something
-    total = 2 + n_mid + n_pages + n_res + n_unreach + n_ind + 1
-    ids = pick_ids(rng, total, rng.choice(['dense1', 'dense1', 'sparse', 'sparse', 'sparse', 'high', 'samenum', 'dense0']))
+    n_num = rng.choice([0, 0, 1, 2, 3])  # objects reachable ONLY through arrays that begin with a number
+    total = 2 + n_mid + n_pages + n_res + n_unreach + n_ind + n_num + 1
+    ids = pick_ids(rng, total, style or rng.choice(['dense1', 'dense1', 'sparse', 'sparse', 'sparse', 'high', 'samenum', 'dense0']))
     rng.shuffle(ids)
     it = iter(ids)
     cat, root = next(it), next(it)
@@ -52,6 +76,7 @@ def gen_doc(rng, size):
     res = [next(it) for _ in range(n_res)]
     unreach = [next(it) for _ in range(n_unreach)]
     inds = [next(it) for _ in range(n_ind)]
+    nums = [next(it) for _ in range(n_num)]
     info = next(it)
     have = set(ids)
     # dangling ids: near the numbers in use (so they may fall into the new range) and far away
@@ -108,8 +133,33 @@ def gen_doc(rng, size):
         if rng.random() < 0.2 and order:
             ent.append(('Next', REF(*rng.choice(order))))
         return D(ent)
+    # number trees: nums[0] hangs in a number-first array of the catalog / the trailer / a page, nums[i+1] is
+    # reachable only through a number-first array held by nums[i]; every one of them refers to other objects
+    num_anchor = None
+    if nums or rng.random() < 0.25:
+        heads = [REF(*nums[0])] if nums else []
+        heads += [REF(*rng.choice(ids)) for _ in range(rng.randint(0 if nums else 1, 2))]
+        if rng.random() < p_dangling:
+            heads.append(maybe_dangling())
+        rng.shuffle(heads)
+        num_anchor = (rng.choice(['cat-labels', 'cat-labels', 'cat-struct', 'trailer', 'page'] if order else
+                                 ['cat-labels', 'cat-struct', 'trailer']), numarr(rng, heads))
+    for k, u in enumerate(nums):
+        other = REF(*rng.choice(order or ids))
+        nxt = [REF(*nums[k + 1])] if k + 1 < len(nums) else []
+        form = rng.random()
+        if form < 0.4:
+            objects.append((u, D([('S', N('D')), ('Pg', other)] + ([('Nums', numarr(rng, nxt + [REF(*rng.choice(ids))]))] if nxt or rng.random() < 0.5 else []))))
+        elif form < 0.75:
+            objects.append((u, numarr(rng, nxt + [other])))
+        else:
+            objects.append((u, ST([('Length', I(2)), ('W', numarr(rng, nxt + [other]))], b'nt')))
+    num_page = rng.choice(order) if num_anchor and num_anchor[0] == 'page' else None
     for p in pages:
-        objects.append((p, page_obj(p)))
+        o = page_obj(p)
+        if p == num_page:
+            o = o[:-1] + ' ' + L(xb('StructParents'), num_anchor[1]) + ')'
+        objects.append((p, o))
     dup_page = rng.random() < 0.12 and len(order) >= 2
     for m, g in zip(mids, groups):
         kids = [REF(*p) for p in g]
@@ -133,6 +183,10 @@ def gen_doc(rng, size):
     cat_ent = [('Type', N('Catalog')), ('Pages', REF(*root))]
     if rng.random() < p_dangling:
         cat_ent.append(('Outlines', maybe_dangling()))
+    if num_anchor and num_anchor[0] == 'cat-labels':
+        cat_ent.append(('PageLabels', D([('Nums', num_anchor[1])])))
+    if num_anchor and num_anchor[0] == 'cat-struct':
+        cat_ent.append(('StructTreeRoot', D([('Type', N('StructTreeRoot')), ('ParentTree', D([('Kids', A([D([('Limits', A([I(0), I(9)])), ('Nums', num_anchor[1])])]))]))])))
     objects.append((cat, D(cat_ent)))
     for ind in inds:               # unused indirections: point anywhere
         objects.append((ind, REF(*rng.choice(ids))))
@@ -148,7 +202,10 @@ def gen_doc(rng, size):
         elif kind < 0.8:
             objects.append((r, D([('Type', N('Font')), ('Peer', REF(*rng.choice(res)))])))
         else:
-            objects.append((r, A([REF(*rng.choice(ids)), I(7), A([REF(*rng.choice(ids))]), NULL, S(b'x')])))
+            a = [REF(*rng.choice(ids)), I(7), A([REF(*rng.choice(ids))]), NULL, S(b'x')]
+            if rng.random() < 0.5:
+                a.insert(0, rng.choice([I(3), R('0.5')]))      # the same array with a number in front
+            objects.append((r, A(a)))
     for u in unreach:
         ent = [('Orphan', B(True)), ('To', REF(*rng.choice(ids)))]
         if rng.random() < 0.4:
@@ -164,6 +221,8 @@ def gen_doc(rng, size):
         trailer.append(('Extra', A([REF(*rng.choice(ids)), REF(*rng.choice(ids))])))
     if rng.random() < p_dangling:
         trailer.append(('Prev', maybe_dangling()))
+    if num_anchor and num_anchor[0] == 'trailer':
+        trailer.append(('Nt', num_anchor[1]))
     trailer.append(('Size', I(total + 1)))
     rng.shuffle(objects)
     return objects, trailer, order, ids, dang
@@ -247,12 +306,54 @@ def fixed_cases():
             ((5, 0), D([('Type', N('Page')), ('Parent', REF(2)), ('Name', S(b'b'))]))]
     cs.append((make_case(objs, [('Root', REF(1))], [L('none', OID(3)), L('none', OID(5))], 1),
                {'kind': 'fixed-page-twice', 'nontrivial': True}))
+    # already consecutive from the start value, max_id stale: two ids reserved / two objects added and deleted again
+    objs = [((1, 0), D([('Type', N('Catalog')), ('Pages', REF(2))])),
+            ((2, 0), D([('Type', N('Pages')), ('Kids', A([REF(3), REF(4)])), ('Count', I(2))])),
+            ((3, 0), page(2)), ((4, 0), page(2))]
+    cs.append((make_case(objs, [('Root', REF(1))], [], 1, 6), {'kind': 'fixed-dense-stale-max', 'nontrivial': True}))
+    cs.append((make_case(objs, [('Root', REF(1))], [], 1, 0), {'kind': 'fixed-dense-max-0', 'nontrivial': True}))
+    # the same with the pages out of order (only the page pass has work) and with start 13 on ids 13..16
+    objs2 = [((1, 0), D([('Type', N('Catalog')), ('Pages', REF(2))])),
+             ((2, 0), D([('Type', N('Pages')), ('Kids', A([REF(4), REF(3)])), ('Count', I(2))])),
+             ((3, 0), page(2)), ((4, 0), page(2))]
+    cs.append((make_case(objs2, [('Root', REF(1))], [L('none', OID(4))], 1, 40), {'kind': 'fixed-dense-stale-max-pages', 'nontrivial': True}))
+    objs3 = [((13, 0), D([('Type', N('Catalog')), ('Pages', REF(14))])),
+             ((14, 0), D([('Type', N('Pages')), ('Kids', A([REF(15), REF(16)])), ('Count', I(2))])),
+             ((15, 0), page(14)), ((16, 0), page(14))]
+    cs.append((make_case(objs3, [('Root', REF(13))], [], 13, 17), {'kind': 'fixed-dense-stale-max-13', 'nontrivial': True}))
+    cs.append((make_case([], [], [], 1, 40), {'kind': 'fixed-empty-stale-max', 'nontrivial': True}))
+    # a number tree: the labels are reachable only through an array that begins with a number
+    objs = [((10, 0), D([('Type', N('Catalog')), ('Pages', REF(20)), ('PageLabels', D([('Nums', A([I(0), REF(60), I(1), REF(70)]))]))])),
+            ((20, 0), D([('Type', N('Pages')), ('Kids', A([REF(30)])), ('Count', I(1))])),
+            ((30, 0), D([('Type', N('Page')), ('Parent', REF(20)), ('StructParents', A([R('0.5'), A([I(1), D([('K', REF(70))])])]))])),
+            ((60, 0), D([('S', N('D')), ('Pg', REF(30))])),
+            ((70, 0), D([('S', N('r')), ('Pg', REF(30)), ('Prev', REF(60))]))]
+    for st in (1, 5):
+        cs.append((make_case(objs, [('Root', REF(10))], [L('none', OID(30))], st), {'kind': 'fixed-number-tree', 'nontrivial': True}))
     return cs
+
+
+def pick_max_id(rng, objects):
+    """max_id as found in real documents: the highest number in use, or higher (ids reserved by new_object_id, objects
+    added and deleted again), or stale / never set (lower than the numbers in use)"""
+    mx = max([i for (i, _), _ in objects] + [0])
+    return rng.choice([mx, mx, mx, min(U32 - 1, mx + rng.randint(1, 4)), min(U32 - 1, mx + 1000), 0, rng.randint(0, mx), U32 - 1])
 
 
 def gen_cases(rng, tier):
     n = 400 if tier == 'quick' else 12000
     cases = fixed_cases()
+    # documents whose numbers are ALREADY consecutive from the start value (the dense pass has nothing to move; the
+    # page pass may) while max_id is not the last number
+    for k in range(n // 8):
+        objects, trailer, order, ids, dang = gen_doc(rng, rng.choice(['tiny', 'normal']), style=rng.choice(['denseb', 'denseb', 'dense1']))
+        specs = gen_bookmarks(rng, order, ids, dang)
+        start = min(i for i, _ in ids)
+        last = start + len(ids) - 1
+        mid = rng.choice([min(U32 - 1, last + 1), min(U32 - 1, last + rng.randint(1, 50)), 0, max(0, last - 1), U32 - 1, rng.randint(0, last)])
+        line = make_case(objects, trailer, specs, start, mid)
+        cls = classify(line, {}, None, None, '')
+        cases.append((line, {'kind': 'dense-stale-max' + ('-dangling-in-range' if cls else ''), 'nontrivial': len(objects) >= 3}))
     for k in range(n):
         size = rng.choice(['tiny', 'normal', 'normal', 'normal'])
         objects, trailer, order, ids, dang = gen_doc(rng, size)
@@ -267,7 +368,7 @@ def gen_cases(rng, tier):
         elif r < 0.08:
             objects = [(i, o.replace(xb('Kids'), xb('Kidz'))) for i, o in objects]
             kind = 'mal-kids'
-        line = make_case(objects, trailer, specs, start)
+        line = make_case(objects, trailer, specs, start, pick_max_id(rng, objects))
         cls = classify(line, {}, None, None, '')
         cases.append((line, {'kind': kind + ('-dangling-in-range' if cls else ''), 'nontrivial': len(objects) >= 3}))
     return cases
